@@ -39,13 +39,13 @@ def explore(ctx: Ctx, fam: Family, thorough: bool):
     """Yield (config, state, runtime outcome) over the whole reachable space: the states after read_device_info and,
     transitively, every state a (successful or failed) read_runtime_data call leaves behind."""
     from .c15 import project
-    st0 = fam.initial_state()
     seen = set()
     for cfg in fam.configurations(thorough):
         work = []
-        for oc in fam.replay("read_device_info", st0, cfg):
-            if oc.end != "raise":
-                work.append(oc.state)
+        for st0 in fam.initial_states():
+            for oc in fam.replay("read_device_info", st0, cfg):
+                if oc.end != "raise":
+                    work.append(oc.state)
         while work:
             st = work.pop()
             pk = project(fam, st) if not thorough else (cfg.label, cfg.rated_power, project(fam, st))
